@@ -140,4 +140,78 @@ def Rx.speedupStops : Rx → Option (List Nat)
       expandItems items
   | _ => none
 
+/-! ### backtracking-cost class (C07) -/
+
+/-- a repeat is "big" when its iteration count is unbounded or larger than 16 -/
+def bigRep (mx : Option Nat) : Bool :=
+  match mx with
+  | none => true
+  | some m => decide (16 < m)
+
+/-- the regex consumes exactly one character whenever it matches (class, dot) -/
+def Rx.isSingleChar : Rx → Bool
+  | .cls _ _ => true
+  | .any _ => true
+  | .grp _ r => r.isSingleChar
+  | _ => false
+
+/-- contains a big repeat -/
+def Rx.hasBigRep : Rx → Bool
+  | .seq a b => a.hasBigRep || b.hasBigRep
+  | .alt a b => a.hasBigRep || b.hasBigRep
+  | .rep r _ mx _ => bigRep mx || r.hasBigRep
+  | .grp _ r => r.hasBigRep
+  | .look _ _ _ r => r.hasBigRep
+  | _ => false
+
+/-- probe alphabet for class-overlap tests: all of ASCII plus representatives of the non-ASCII categories -/
+def probeAlphabet : List Nat := List.range 128 ++ [0x85, 0xA0, 0xE9, 0xDF, 0x660, 0x2028, 0x3000, 0x4E00, 0x1F600]
+
+/-- can both regexes start (a non-empty match) with the same probe character? -/
+def firstOverlap (t : CatTables) (a b : Rx) : Bool := probeAlphabet.any (fun ch => a.firstOk t ch && b.firstOk t ch)
+
+/-- the alternatives at the top of a repeat body (flattened `alt`) -/
+def Rx.alts : Rx → List Rx
+  | .alt a b => a.alts ++ b.alts
+  | .grp _ r => r.alts
+  | r => [r]
+
+def pairwiseDisjoint (t : CatTables) : List Rx → Bool
+  | [] => true
+  | a :: rest => rest.all (fun b => !firstOverlap t a b) && pairwiseDisjoint t rest
+
+/-- the last big single-character repeat at the end of a sequence, if the sequence ends with one (possibly
+followed by zero-width items) -/
+def Rx.trailingCharRep : Rx → Option Rx
+  | .rep r _ mx _ => if bigRep mx && r.isSingleChar then some r else none
+  | .seq a b => if b.zeroWidth then a.trailingCharRep else b.trailingCharRep
+  | .grp _ r => r.trailingCharRep
+  | _ => none
+
+/-- the leading big single-character repeat of a sequence, if it starts with one -/
+def Rx.leadingCharRep : Rx → Option Rx
+  | .rep r _ mx _ => if bigRep mx && r.isSingleChar then some r else none
+  | .seq a b => if a.zeroWidth then b.leadingCharRep else a.leadingCharRep
+  | .grp _ r => r.leadingCharRep
+  | _ => none
+
+/-- **The cheap class.** Sufficient syntactic conditions under which the backtracking matcher cannot blow up:
+every big repeat has a single-character body, or a body without inner big repeats whose alternatives start with
+pairwise different characters (one way to read each iteration); and two big single-character repeats never
+stand next to each other over overlapping classes (no `x{2,}x*`, the quadratic-per-start shape). -/
+def Rx.polySafe (t : CatTables) : Rx → Bool
+  | .seq a b =>
+    a.polySafe t && b.polySafe t &&
+    (match a.trailingCharRep, b.leadingCharRep with
+     | some x, some y => !firstOverlap t x y
+     | _, _ => true)
+  | .alt a b => a.polySafe t && b.polySafe t
+  | .rep r _ mx _ =>
+    if bigRep mx then
+      r.isSingleChar || (!r.hasBigRep && decide (1 ≤ r.minLen) && pairwiseDisjoint t r.alts && r.polySafe t)
+    else r.polySafe t
+  | .grp _ r => r.polySafe t
+  | .look _ _ _ r => r.polySafe t
+  | _ => true
+
 end Mistune
